@@ -1308,6 +1308,8 @@ pub fn gen_world(seed: u64) -> LspWorld {
           top[u]
         };
         let text = match &last_text[u] {
+          // the same text again under a new version (a save hook that changed nothing, an undo/redo pair)
+          Some(prev) if r.chance(0.08) => prev.clone(),
           Some(prev) if !prev.is_empty() && r.chance(0.5) => small_edit(&mut r, prev, lang),
           _ => gen_text(&mut r, lang, allow_large),
         };
